@@ -371,7 +371,19 @@ fn block_forever(sh: &Sh, j: usize, how: u64) -> ! {
 /// the last statement(s) of a body; `held`: the write-kind lock whose guard is still alive
 fn finish(sh: &Sh, j: usize, p: &Plan, held: Option<(&LockSt, LK, &After)>) -> u64 {
     match p.end {
-        End::Ret(v) => v,
+        End::Ret(v) => {
+            // the guard that is still held is dropped normally when the body returns
+            if let Some((l, kind, _)) = held {
+                if std::thread::panicking() {
+                    match kind {
+                        LK::M => l.o2b_m.store(true, SeqCst),
+                        LK::W => l.o2b_w.store(true, SeqCst),
+                        LK::R => {}
+                    }
+                }
+            }
+            v
+        }
         End::Pan(v) => {
             if let Some((l, kind, after)) = held {
                 // from here on the lock may be found poisoned
